@@ -26,6 +26,7 @@ import (
 	"time"
 
 	"github.com/yandex/pandora/core"
+	"github.com/yandex/pandora/core/coreutil"
 	"github.com/yandex/pandora/core/engine"
 	"github.com/yandex/pandora/core/schedule"
 
@@ -445,6 +446,117 @@ log: {level: "error"}
 	wg.Wait()
 }
 
+// sharedFirstUse: a shared profile is started lazily by whichever instance asks for its first
+// request, while the other instances ask at the same moment. Each round puts a fresh paced
+// schedule in front of 16 goroutines released together; each takes one request through its own
+// Waiter (as an instance does). Whatever the interleaving, the k-th request in schedule order is
+// not due before the round's start + k·interval, and in a schedule that is much less than 2 s
+// old nothing can be 2 s late, so nothing may be judged as overflow. The deciding readings are
+// the schedule's own token times and the Waiter's verdict; the wall clock only marks the round
+// start (taken before any goroutine is released) — a lower bound.
+func sharedFirstUse(res *vkit.Result, rounds int) {
+	kinds := []string{"const", "line", "step", "once"}
+	for ki, kind := range kinds {
+		c := map[string]any{"schedule": kind, "callers": 16, "rounds": rounds}
+		badEarly, badOver := "", ""
+		var mu sync.Mutex
+		for r := 0; r < rounds && badEarly == "" && badOver == ""; r++ {
+			var s core.Schedule
+			gap := time.Duration(0)
+			switch kind {
+			case "const":
+				s, gap = schedule.NewConst(100000, 10*time.Second), 10*time.Microsecond
+			case "line":
+				s = schedule.NewLine(100000, 200000, 10*time.Second)
+			case "step":
+				s = schedule.NewStep(100000, 300000, 100000, 5*time.Second)
+				gap = 10 * time.Microsecond
+			default:
+				s = schedule.NewOnce(64)
+			}
+			toks := make([]time.Time, 16)
+			over := make([]bool, 16)
+			got := make([]bool, 16)
+			begin := make(chan struct{})
+			var wg sync.WaitGroup
+			for g := 0; g < 16; g++ {
+				wg.Add(1)
+				go func(g int) {
+					defer wg.Done()
+					<-begin
+					for i := 0; i < (g*7+r)%5; i++ {
+					}
+					if (r+ki)%2 == 0 {
+						toks[g], got[g] = s.Next()
+						return
+					}
+					w := coreutil.NewWaiter(s)
+					ctx, cancel := context.WithTimeout(context.Background(), 5*time.Second)
+					defer cancel()
+					if w.Wait(ctx) {
+						got[g] = true
+						over[g] = w.IsSlowDown(ctx)
+					}
+				}(g)
+			}
+			t0 := time.Now()
+			close(begin)
+			wg.Wait()
+			took := time.Since(t0)
+			res.Count("shared_first_use_rounds", 1)
+			if (r+ki)%2 == 0 {
+				all := true
+				for _, ok := range got {
+					all = all && ok
+				}
+				if !all {
+					badEarly = fmt.Sprintf("round %d: a schedule of thousands of requests refused one of its first 16", r)
+					break
+				}
+				sorted := append([]time.Time(nil), toks...)
+				sortTimes(sorted)
+				for k, tx := range sorted {
+					due := t0.Add(time.Duration(k) * gap)
+					if tx.Before(due) {
+						mu.Lock()
+						badEarly = fmt.Sprintf("round %d: request #%d in schedule order is dated %s; the schedule was first used at %s or later, so it is due at %s or later", r, k, tx.Format("2006-01-02 15:04:05.000000"), t0.Format("15:04:05.000000"), due.Format("15:04:05.000000"))
+						mu.Unlock()
+						break
+					}
+				}
+				res.Count("shared_first_use_tokens", 16)
+				continue
+			}
+			if took > time.Second {
+				res.Count("shared_first_use_slow_rounds", 1)
+				continue
+			}
+			for g := range over {
+				if got[g] && over[g] {
+					badOver = fmt.Sprintf("round %d: caller %d's request was judged as overflow (2 s late) %v after the schedule was first used", r, g, took)
+					break
+				}
+			}
+			res.Count("shared_first_use_verdicts", 16)
+		}
+		if badEarly != "" {
+			res.Violate("C04/shared-first-use/before-schedule", badEarly, c)
+		}
+		if badOver != "" {
+			res.Violate("C04/shared-first-use/judged-overflow", badOver, c)
+		}
+		res.Eval(vkit.JSON(c), true)
+	}
+}
+
+func sortTimes(ts []time.Time) {
+	for i := 1; i < len(ts); i++ {
+		for j := i; j > 0 && ts[j].Before(ts[j-1]); j-- {
+			ts[j], ts[j-1] = ts[j-1], ts[j]
+		}
+	}
+}
+
 func main() {
 	res := vkit.NewResult("mock pools in real time: 1–4 instances, const/line 5–50 rps for 1–6 s, scripted response-time histories (all fast; one 2.1–3.6 s stall; a stall followed by tokens lying in the future; sustained slow target; slower than the interval but inside the 2 s window; profile started 1.5–3.5 s in the past), discard_overflow on/off; distinct = distinct case descriptions; non-trivial = the case produced late-but-fired or discarded tokens")
 	rng := vkit.Rand("c04")
@@ -466,6 +578,7 @@ func main() {
 		}(c)
 	}
 	wg.Wait()
+	sharedFirstUse(res, vkit.N(3000, 20000))
 	if bin := os.Getenv("VERIF_PANDORA_BIN"); bin == "" {
 		res.Inconclusive(true, "no pandora binary (VERIF_PANDORA_BIN)")
 	} else {
